@@ -246,8 +246,17 @@ func checkUntrustedCtor(c *fw.Ctx, short string, fn *ssa.Function) {
 	rule2 := "2 hashed-bytes"
 	canon := fw.NameIs("gmsl.CanonicalJSONAssumeValid")
 	harg := hc.Common().Args[0]
-	cc, _ := fw.CallOf(harg)
-	if cc == nil || !canon(fw.CalleeName(cc)) {
+	// the argument is the canonicalised value itself, or a load of the field it was stored in
+	var cc ssa.CallInstruction
+	fam := fw.FamilyOf(fn)
+	canonOK := fw.DerivesFromIn(harg, hfr, fw.FlowSpec{All: true, Family: fam, IsSource: func(v ssa.Value) bool {
+		if k, _ := fw.CallOf(v); k != nil && canon(fw.CalleeName(k)) {
+			cc = k
+			return true
+		}
+		return false
+	}})
+	if !canonOK || cc == nil {
 		c.Fail(rule2, short+": the hash is checked on canonicalised bytes", c.P.Pos(hc.Pos()), "the content-hash check is not applied to the result of CanonicalJSONAssumeValid")
 		return
 	}
@@ -257,9 +266,14 @@ func checkUntrustedCtor(c *fw.Ctx, short string, fn *ssa.Function) {
 	c.Check(okStrip, rule2, short+": the hashed bytes are the stripped input", c.P.Pos(cc.Pos()), "", "the canonicalised bytes do not derive from the key-stripping deletions")
 	// stored eventJSON is the same value
 	okStore := false
-	for _, st := range fw.FieldStores(fn, "eventV1", "eventJSON") {
-		if st.Val == harg {
-			okStore = true
+	for _, f := range []*ssa.Function{fn, outer} {
+		for _, st := range fw.FieldStores(f, "eventV1", "eventJSON") {
+			if st.Val == harg {
+				okStore = true
+			}
+			if k, _ := fw.CallOf(st.Val); k != nil && k == cc {
+				okStore = true
+			}
 		}
 	}
 	c.Check(okStore, rule2, short+": the stored JSON is the hashed JSON", c.P.Pos(hc.Pos()), "", "the eventJSON kept on the event is not the value whose hash was checked")
